@@ -24,6 +24,7 @@ type vGenSess struct {
 	forms    bool     // this session signals some remote candidates through non-canonical address literals
 	tcp      bool     // this session mixes TCP candidates with UDP ones
 	fl       []string // the in-flight datagrams as printed by the implementation ("src>dst:…"), for directed scenarios
+	blkA     int      // ip id rejected by A's remote IP filter (0 = no filter)
 	seq      int      // running number of the directed scenario of this kind (cycles through its variants)
 }
 
@@ -193,8 +194,12 @@ func (g *vGenSess) cfg(letter string, lite bool, renom bool) string {
 			parts = append(parts, "na=1") // the session uses a custom nomination attribute type
 		}
 	}
-	if r.chance(1, 6) {
-		parts = append(parts, fmt.Sprintf("blk=%d", 1+r.intn(30)))
+	if r.chance(1, 6) || (g.focus == "C06" && r.chance(1, 4)) {
+		b := 1 + r.intn(30)
+		parts = append(parts, fmt.Sprintf("blk=%d", b))
+		if letter == "A" {
+			g.blkA = b
+		}
 	}
 	tbs := []string{"0", "1", "2", "18446744073709551615", "18446744073709551614", "4242", "4243"}
 	tb := tbs[r.intn(len(tbs))]
@@ -798,6 +803,12 @@ func (g *vGenSess) single() {
 			a2 += vTCPBase
 		}
 		g.op("addlocal A 1 %d %d %d -%s", netFor(net0, a2), a2, g.prio(), g.locTT(a2))
+	}
+	if g.blkA != 0 && r.chance(2, 3) {
+		// candidates at the filtered address, signalled through the plain AND the IPv4-mapped literal, on two ports
+		g.op("addremote A 1 0 %d %d - 1", 16*g.blkA, g.prio())
+		g.op("addremote A 1 0 %d %d -", 16*g.blkA+1, g.prio())
+		g.op("addremote A %d 0 %d %d 0 1", []int{2, 4}[r.intn(2)], 16*g.blkA+2, g.prio())
 	}
 	nrem := 1 + r.intn(3)
 	for j := 0; j < nrem; j++ {
